@@ -74,7 +74,7 @@ func preSplit(ls []tline, positions []int) []tline {
 	return ls
 }
 
-var c05Kinds = []string{"upper", "lower", "altcase", "tabs", "multiblank", "trailing", "indent", "crlf", "blankline", "decorate", "dashes", "quotes"}
+var c05Kinds = []string{"upper", "lower", "altcase", "tabs", "multiblank", "trailing", "indent", "crlf", "blankline", "decorate", "dashes", "quotes", "nbsp"}
 var c05Decor = []string{"//", "// ", "#", "# ", "*", " * ", ";", ";; ", "--", "-- ", ">", "> ", "|", "| ", "%", "% ", "> > "}
 var c05Dashes = []string{"‒", "–", "—", "‐"}
 var c05DigitDot = regexp.MustCompile(`([0-9])\.(\s|$)`)
@@ -84,6 +84,9 @@ func genXforms(t *rapid.T, kinds []string, maxN int) []xform {
 	var out []xform
 	for i := 0; i < n; i++ {
 		x := xform{Kind: lib.PickStr(t, kinds, "xformKind"), Arg: lib.IntN(t, 0, 40, "xformArg"), All: lib.IntN(t, 0, 2, "xformAll") == 0}
+		if x.Kind == "nbsp" && lib.IntN(t, 0, 3, "nbspAll") > 0 {
+			x.All = true // multi-byte blanks everywhere: some of them sit on a read-buffer boundary
+		}
 		if !x.All {
 			x.Pos = lib.Ints(t, 1, 25, 0, 4000, "xformPos")
 		}
@@ -261,6 +264,8 @@ func applyXforms(ls []tline, ts []xform) ([]tline, map[string]int, int) {
 				ls[i].s = recase(ls[i].s, x.Kind)
 			case "tabs":
 				ls[i].s = strings.Replace(ls[i].s, " ", "\t", -1)
+			case "nbsp": // another kind of horizontal white space: no-break / ideographic / thin spaces (multi-byte)
+				ls[i].s = strings.Replace(ls[i].s, " ", []string{"\u00a0", "\u3000", "\u2009", " \u00a0"}[x.Arg%4], -1)
 			case "multiblank":
 				ls[i].s = strings.Replace(ls[i].s, " ", strings.Repeat(" ", 2+x.Arg%3), -1)
 			case "trailing":
@@ -399,6 +404,6 @@ func c05Check(ci interface{}) lib.Outcome {
 
 func TestVerif_C05(t *testing.T) {
 	lib.Run(t, lib.Spec{ID: "C05", Part: "presentation",
-		Rule: "X = generated license-bearing input (documents in context, scenario files, edited texts); T = composition of 1-4 of: upper/lower/alternating ASCII case, space->tab, multiple blanks, trailing blanks, indentation, CRLF, blank-line insertion, line decoration (17 markers), typographic dashes, typographic quotes, applied to all or to drawn lines; lines ending in a dash and their continuation are frozen (counted); oracle: identical token ids with mapped lines and identical Match results with mapped lines; non-trivial = X has a license match and T(X) != X; distinct = distinct (threshold, X, applied kinds, |T(X)|)",
+		Rule: "X = generated license-bearing input (documents in context, scenario files, edited texts); T = composition of 1-4 of: upper/lower/alternating ASCII case, space->tab, space->no-break / ideographic / thin space, multiple blanks, trailing blanks, indentation, CRLF, blank-line insertion, line decoration (17 markers), typographic dashes, typographic quotes, applied to all or to drawn lines; lines ending in a dash and their continuation are frozen (counted); oracle: identical token ids with mapped lines and identical Match results with mapped lines; non-trivial = X has a license match and T(X) != X; distinct = distinct (threshold, X, applied kinds, |T(X)|)",
 		New:  func() interface{} { return &c05Case{} }, Gen: c05Gen, Check: c05Check})
 }
